@@ -210,7 +210,14 @@ func genC19(r *rand.Rand, n int, emit func(Op)) {
 			}
 			b.WriteString("hook = [" + strings.Join(parts, ", ") + "]\n")
 		}
-		switch weighted(r, 12, 1, 1, 1, 1) {
+		switch weighted(r, 12, 1, 1, 1, 1, 2) {
+		case 5:
+			/* extra keys and tables of every shape: with and without leaf keys of their own,
+			   nested under known tables, inline, arrays of tables, near-miss names */
+			b.WriteString(pick(r, []string{"[bogus]\n", "bogus = {}\n", "[netwrok]\n", "[network.proxy]\n", "[style.colours]\n", "[style.colors.extra]\n",
+				"[a.b.c]\n", "[x]\n[x.y]\n", "[[bogus]]\n", "bogus = 1\n", "bogus = []\n", "[feeds.home]\n", "[media.hooks]\n", "[Style.Colors.Extra]\n",
+				"[bogus]\n[bogus.deeper]\nk = 1\n", "[style.colors.primary]\n"}))
+			expect = "toml"
 		case 1:
 			b.WriteString("[unknown_table]\nkey = 1\n")
 			expect = "toml"
